@@ -12,7 +12,7 @@ RemoveUntraceableBlocks, by `tryRunGC(oldPersisted)` (blockchain.go:1393-1428):
                                       into bc.dao) - they reach the backend with the NEXT flush batch
         removeOldHeaderHashes(tgt)    SeekGC IXHeaderHashList   directly on the backend
 
-(the P2PStateExchangeExtensions alignment of tgtBlock is not modelled). Which header hashes the block-removal
+Which header hashes the block-removal
 loop can resolve depends on HeaderHashes' in-memory pages and its LRU page cache (headerhashes.go:235-277),
 both are part of the node here. Core Lean only.
 -/
@@ -20,8 +20,10 @@ import NeoModel.Model.Persist
 namespace NeoModel.Persist
 
 structure GcCfg where
-  mtb : Nat        -- MaxTraceableBlocks
-  gcp : Nat        -- GarbageCollectionPeriod
+  mtb : Nat                -- MaxTraceableBlocks
+  gcp : Nat                -- GarbageCollectionPeriod
+  p2pse : Bool := false    -- P2PStateExchangeExtensions
+  ssi : Nat := 0           -- StateSyncInterval
 
 /-- the node with the state the garbage collector keeps in memory. -/
 structure GNode where
@@ -96,13 +98,32 @@ def gcPagesTill (B : Nat) (db : Db) (tgt : Nat) : Nat :=
   | some (Val.ptr hh) => min (pagesTill B tgt) (((hh + 1) / B - 2) * B)
   | _ => 0
 
+def u32 : Nat := 4294967296
+
+/-- tgtBlock of tryRunGC before it is rounded to the GC period (blockchain.go:1400-1412), for `new ≥ mtb`:
+`new - mtb`, and with P2PStateExchangeExtensions at most "the sync point before the latest one, minus mtb" - computed in
+uint32 as the code does (`syncP--` and `syncP - mtb` wrap around). -/
+def gcBase (cfg : GcCfg) (new : Nat) : Nat :=
+  let t0 := new - cfg.mtb
+  if cfg.p2pse then
+    let ssi := cfg.ssi % u32
+    let syncP := (((new / ssi + u32 - 1) % u32) * ssi) % u32
+    min t0 ((syncP + u32 - cfg.mtb % u32) % u32)
+  else t0
+
+/-- the GC target of tryRunGC(old) at persisted height `new`, `none` = no collection this time (:1413-1427). -/
+def gcTarget (cfg : GcCfg) (new old : Nat) : Option Nat :=
+  if new < cfg.mtb then none else
+  let tgt := gcBase cfg new / cfg.gcp * cfg.gcp
+  if tgt > cfg.gcp ∧ new / cfg.gcp ≠ old / cfg.gcp then some tgt else none
+
 /-- tryRunGC(old) on a node whose persisted height is `new`. Result: the node and the batches committed
 directly to the backend, in order. `gx` = what the transfer GC does to a log. -/
 def gcRun (H : Hist) (B : Nat) (cfg : GcCfg) (g : GNode) (old : Nat) (gx : Nat → Option Val → Option Val) : GNode × List Batch :=
   match g.n.db Key.curBlock with
   | some (Val.ptr new) =>
     if new < cfg.mtb then (g, []) else
-    let tgt := (new - cfg.mtb) / cfg.gcp * cfg.gcp
+    let tgt := gcBase cfg new / cfg.gcp * cfg.gcp
     if tgt > cfg.gcp ∧ new / cfg.gcp ≠ old / cfg.gcp then
       let g1 : GNode := { g with n := { g.n with db := gcSel tgt gx g.n.db } }
       let g2 := gcBlocks H B cfg g1 new tgt
@@ -134,7 +155,6 @@ inductive GOp where
   | base (o : Op)                                               -- a step of Model/Persist
   | gcRun (old : Nat) (gx : Nat → Option Val → Option Val)      -- one tryRunGC(old)
   | blockWait                                                   -- AddBlock with a flush during its back-pressure wait
-  | blockWaitRC                                                 -- … on a node whose MPT counts references (leaky, see below)
 
 /-- AddBlock of the next block while the persisting routine flushes: storeBlock (blockchain.go:2032-2229) computes
 the block into two PRIVATE layers (`aerCache`: tip pointer, block, transactions, AERs, transfer logs; `cache`: contract
@@ -148,23 +168,20 @@ def blockWait (H : Hist) (B : Nat) (n : Node) : Node × Option Batch :=
   let s3 := step H B s2.1 .block
   (s3.1, s2.2)
 
-/-- `blockWait` as the code behaves on a node whose MPT counts references (RemoveUntraceableBlocks /
-KeepOnlyLatestState): Trie.updateRefCount (mpt/trie.go:460-483) rewrites the active flag / counter of a stored node IN
-PLACE in the slice it got from the store - for a node that still sits in the shared write cache that is bc.dao's own
-copy. So AddMPTBatch of the waiting block releases the nodes of the previous state inside bc.dao BEFORE the block is
-merged, and the flush during the wait carries them. In this model's granularity (`Key.trie h` = the nodes of the state
-trie of height h) the trie of the current height is then not loadable from that batch (`none`), when it was still in
-the write cache. Known finding rcwait-continue-addblock. -/
-def blockWaitRC (H : Hist) (B : Nat) (n : Node) : Node × Option Batch :=
+/-- `blockWait` as the code behaved BEFORE fix 956252a on a node whose MPT counts references (RemoveUntraceableBlocks /
+KeepOnlyLatestState); kept for the regression example `rc_flush_inside_block_breaks_restart` only.
+Trie.updateRefCount (mpt/trie.go:450-490) rewrote the active flag / counter of a stored node IN PLACE in the slice it got
+from the store - for a node that still sat in the shared write cache that was bc.dao's own copy (it clones the slice
+now). So AddMPTBatch of the waiting block released the nodes of the previous state inside bc.dao BEFORE the block was
+merged, and the flush during the wait carried them. In this model's granularity (`Key.trie h` = the nodes of the state
+trie of height h) the trie of the current height was then not loadable from that batch (`none`), when it was still in
+the write cache. -/
+def blockWaitOldRC (H : Hist) (B : Nat) (n : Node) : Node × Option Batch :=
   let n1 := (step H B n (.headers (n.height + 1))).1
   let leak : Writes := if n1.cache.any (fun p => decide (p.1 = Key.trie n.height)) then [(Key.trie n.height, none)] else []
   let s2 := step H B { n1 with cache := n1.cache ++ leak } .flush
   let s3 := step H B s2.1 .block
   (s3.1, s2.2)
-
-def GOp.leaky : GOp → Bool
-  | .blockWaitRC => true
-  | _ => false
 
 /-- the header writes AddBlock issues before storeBlock when the header of the next block is new. -/
 def waitHeaderWrites (B : Nat) (n : Node) : Writes :=
@@ -175,7 +192,6 @@ def gstep (H : Hist) (B : Nat) (cfg : GcCfg) (g : GNode) : GOp → GNode × List
   | .base o => let s := step H B g.n o; ({ g with n := s.1 }, s.2.toList)
   | .gcRun old gx => gcRun H B cfg g old gx
   | .blockWait => let s := blockWait H B g.n; ({ g with n := s.1 }, s.2.toList)
-  | .blockWaitRC => let s := blockWaitRC H B g.n; ({ g with n := s.1 }, s.2.toList)
 
 def grunFrom (H : Hist) (B : Nat) (cfg : GcCfg) : GNode → List GOp → GNode × List Batch
   | g, [] => (g, [])
